@@ -262,6 +262,28 @@ class Roles:
                     if tgt and tgt[0] == adt and tgt[1] == field:
                         tb = tb or self.terms(b)
                         out.append((b, i, k, b.loc(t["sp"]), tb.operand(t["args"][1])))
+                elif not k and t["args"]:
+                    # `helper(&mut x.field, ..)`: the helper's compound assignments through that parameter are writes of the
+                    # field, made at this call site (one level; the right-hand side is the helper's own term)
+                    hb = self.F.bodies.get(t["callee"])
+                    if hb is None or hb.id == b.id or not hb.crate.startswith("cgt_"):
+                        continue
+                    for ai, a in enumerate(t["args"]):
+                        p = op_place(a)
+                        if p is None:
+                            continue
+                        tgt = self._ref_target(b, p)
+                        if not (tgt and tgt[0] == adt and tgt[1] == field):
+                            continue
+                        htb = None
+                        for j, u in hb.calls():
+                            hk = is_decimal_arith_assign(u["callee"])
+                            if not hk or not u["args"]:
+                                continue
+                            hp = op_place(u["args"][0])
+                            if hp is not None and self._param_root(hb, hp) == ai + 1:
+                                htb = htb or self.terms(hb)
+                                out.append((b, i, hk, b.loc(t["sp"]), htb.operand(u["args"][1])))
             for i, si, s in b.assigns():
                 lhs = s["lhs"]
                 lf = _last_named_field(lhs)
@@ -274,6 +296,27 @@ class Roles:
                     val = tb.operand(rv["ops"][rv["fields"].index(field)])
                     out.append((b, i, "construct", b.loc(s["sp"]), val))
         return out
+
+    def _param_root(self, b, p, depth=0):
+        """the parameter (local number) a `&mut` local is a copy / re-borrow of, or None"""
+        if depth > 6:
+            return None
+        if 1 <= p["l"] <= b.argc:
+            return p["l"]
+        ds = b.defs().get(p["l"], [])
+        if len(ds) != 1 or ds[0][0] != "assign":
+            return None
+        rv = ds[0][3]["rv"]
+        if rv["k"] in ("ref", "rawptr"):
+            q = rv["p"]
+            if all(e == "deref" for e in place_proj(q)):
+                return self._param_root(b, {"l": q["l"]}, depth + 1)
+            return None
+        if rv["k"] == "use":
+            q = op_place(rv["op"])
+            if q is not None and all(e == "deref" for e in place_proj(q)):
+                return self._param_root(b, {"l": q["l"]}, depth + 1)
+        return None
 
     def _ref_target(self, b, p, depth=0):
         """for a local holding &mut X.f: return (adt of X, f)"""
